@@ -124,7 +124,9 @@ class PartitionedArray(object):
         return self._ext.partitionid_index_at(at)
 
     def repartition(self, *args, **kwargs):
-        return PartitionedArray.from_ext(self._ext.repartition(*args, **kwargs))
+        out = self._ext.repartition(*args, **kwargs)
+        # like every other way of making one, drop zero-length partitions
+        return IrregularlyPartitionedArray(out.partitions, out.stops)
 
     @property
     def stops(self):
